@@ -129,8 +129,25 @@ def gen_fit_once(rng, idx):
 
 
 def gen_ill(rng, idx):
-    kinds = ['gapk', 'gapk', 'gap1', 'fewpoints', 'zeroweights', 'allzero', 'toofew', 'gapk_edge']
+    kinds = ['gapk', 'gapk', 'gap1', 'fewpoints', 'zeroweights', 'allzero', 'toofew', 'gapk_edge', 'single_edge', 'single_dup']
     kind = kinds[idx % len(kinds)]
+    if kind in ('single_edge', 'single_dup'):
+        # one interval only (exactly 2*nord knots): nothing can be masked, an impossible fit must say -2,
+        # and a retry on the same object (what iterfit does) must end in a status code as well
+        k = rng.randint(2, 4)
+        if kind == 'single_edge':       # only data at the left end carry weight: the last coefficient is unsupported
+            xs = [i / 16.0 for i in range(0, 17, rng.choice([1, 2]))]
+            nw = rng.randint(1, 2)
+            ws = [C.dyadic(rng, 0.5, 2, 3) if i < nw else 0.0 for i in range(len(xs))]
+            if nw == 2 and rng.random() < 0.5:
+                xs[1] = xs[0] + 1.0 / 64
+        else:                           # enough points but only two distinct abscissae (rank deficient)
+            xs = [0.0] * rng.randint(2, 3) + [1.0] * rng.randint(2, 3)
+            ws = [C.dyadic(rng, 0.5, 2, 3) for _ in xs]
+        ys = [C.dyadic(rng, -4, 4, 6) for _ in xs]
+        return {'f': 'fit', 'kind': kind, 'nord': k, 'bkpt': [0.0, 1.0], 'xs': xs, 'ys': ys, 'ws': ws,
+                'iterfit': {'maxiter': rng.choice([2, 5])}, 'refit': True,
+                'zero_diag': kind == 'single_edge' and sum(1 for w in ws if w > 0) == 1}
     k = rng.randint(1, 5) if kind != 'gap1' else rng.randint(2, 5)
     nseg = rng.randint(2 * k + 1, 2 * k + 5)
     b = [float(i) for i in range(nseg + 1)]
@@ -218,7 +235,7 @@ def correspond(ctx, proof_ok=True):
         raise RuntimeError('C09/Model.v does not build:\n' + log[-2000:])
     rng = ctx.rng
     calls = [gen_fit(rng, i) for i in range(ctx.n(72, 500))]
-    calls += [gen_ill(rng, i) for i in range(ctx.n(48, 300))]
+    calls += [gen_ill(rng, i) for i in range(ctx.n(60, 300))]
     calls += [gen_chol(rng, i) for i in range(ctx.n(90, 600))]
     nb = 8
     outs = C.run_impl_parallel('c09_impl.py', [calls[i::nb] for i in range(nb)])
@@ -287,6 +304,18 @@ def correspond(ctx, proof_ok=True):
                 continue
             if st == -1 and r['mask_after'] == r['mask_before']:
                 viol('C09:fit:ill-posed:status-1-mask-unchanged', 'status -1 but the breakpoint mask did not change (%s)' % c['kind'], c, r)
+            rf = r.get('refit')
+            if rf is not None:
+                if 'err' in rf:
+                    viol('C09:fit:ill-posed:refit:impl=%s' % rf['err'],
+                         'fitting again after status %s (as iterfit does) raised %s: %s (%s, nord=%d)' % (
+                             rf.get('statuses'), rf['err'], rf.get('msg', ''), c['kind'], c['nord']), c, r)
+                elif not rf['finite'] or rf['statuses'][-1] == -1:
+                    viol('C09:fit:ill-posed:refit:no-final-status', 'repeated fits do not end in a final status: %s' % rf['statuses'], c, r)
+            if c['kind'].startswith('single') and st == -1:
+                viol('C09:fit:ill-posed:single-interval:status-1',
+                     'a single-interval spline (exactly 2*nord knots) has no breakpoint to drop, yet fit returned -1 (%s, nord=%d)' % (
+                         c['kind'], c['nord']), c, r)
             it = r.get('iterfit', {})
             if it.get('err') == 'ValueError' and 'No valid data points' in it.get('msg', ''):
                 pass     # iterfit's own documented input validation (all weights non-positive)
@@ -295,7 +324,7 @@ def correspond(ctx, proof_ok=True):
                     c['kind'], it['err'], it.get('msg', '')), c, r)
             elif it and not it.get('finite', True):
                 viol('C09:iterfit:ill-posed:non-finite', 'iterfit returned non-finite coefficients (%s)' % c['kind'], c, r)
-            if c['kind'] in ('gapk', 'zeroweights', 'allzero', 'gapk_edge') and 'mininf' in r:
+            if (c['kind'] in ('gapk', 'zeroweights', 'allzero', 'gapk_edge') or c.get('zero_diag')) and 'mininf' in r:
                 terms.append('(CStatus %s %s %d%%nat %s %s %s %s %s)' % (
                     ql(r['bk']), bl(r['mask_before']), c['nord'], ql(c['xs']), ql(c['ws']), C.qlit(r['mininf']),
                     '%s%%Z' % C.zlit(st), bl(r['mask_after'])))
@@ -321,7 +350,7 @@ def correspond(ctx, proof_ok=True):
     ctx.coverage.update({
         'evaluations': len(calls),
         'distinct_nontrivial': len(set(terms)) + sum(1 for c in calls if c['f'] == 'chol' and c['kind'] != 'spd') +
-        sum(1 for c in calls if c['f'] == 'fit' and c['kind'] not in ('well', 'gapk', 'zeroweights', 'allzero', 'gapk_edge')),
+        sum(1 for c in calls if c['f'] == 'fit' and c['kind'] not in ('well', 'gapk', 'zeroweights', 'allzero', 'gapk_edge', 'single_edge')),
         'rule': 'one evaluation = one fit / factorisation problem run on the real code; well-supported fits and SPD '
                 'factorisations are compared in Coq with the certified dense solve / chol_ok / solve_ok, zero-support fits '
                 'with the status model; the other ill-posed problems are judged by outcome class',
